@@ -1,0 +1,77 @@
+//go:build verif
+
+package grace
+
+import (
+	"sort"
+	"time"
+)
+
+// VerifGraceEntry is one (key, action) entry of the process-wide grace expectation map.
+type VerifGraceEntry struct {
+	Key    string
+	Action string
+	Age    time.Duration
+}
+
+// VerifDump lists every entry of DefaultGraceExpectations, sorted by (key, action)
+// (verification harness only). Keys whose inner map is empty are listed with Action "".
+func VerifDump() []VerifGraceEntry {
+	e := DefaultGraceExpectations
+	e.RLock()
+	defer e.RUnlock()
+	out := []VerifGraceEntry{}
+	for k, m := range e.controllerCache {
+		if len(m) == 0 {
+			out = append(out, VerifGraceEntry{Key: k})
+		}
+		for a, t := range m {
+			out = append(out, VerifGraceEntry{Key: k, Action: string(a), Age: time.Since(*t)})
+		}
+	}
+	sort.Slice(out, func(i, j int) bool {
+		if out[i].Key != out[j].Key {
+			return out[i].Key < out[j].Key
+		}
+		return out[i].Action < out[j].Action
+	})
+	return out
+}
+
+// VerifShift makes every recorded expectation `d` older: the harness's way of letting time pass.
+func VerifShift(d time.Duration) {
+	e := DefaultGraceExpectations
+	e.Lock()
+	defer e.Unlock()
+	for _, m := range e.controllerCache {
+		for a, t := range m {
+			nt := t.Add(-d)
+			m[a] = &nt
+		}
+	}
+}
+
+// The methods of the unexported realGraceExpectations, on the process-wide instance.
+func VerifExpect(key, action string)  { DefaultGraceExpectations.Expect(key, Action(action)) }
+func VerifObserve(key, action string) { DefaultGraceExpectations.Observe(key, Action(action)) }
+func VerifSatisfied(key, action string, graceSeconds int32) (bool, time.Duration) {
+	return DefaultGraceExpectations.SatisfiedExpectations(key, Action(action), graceSeconds)
+}
+func VerifDeleteExpectations(key string) { DefaultGraceExpectations.DeleteExpectations(key) }
+func VerifCleanOutdated(interval time.Duration) {
+	DefaultGraceExpectations.CleanOutdatedItems(interval)
+}
+
+// VerifGetExpectations returns the actions recorded under key (sorted) and whether the key exists.
+func VerifGetExpectations(key string) ([]string, bool) {
+	m := DefaultGraceExpectations.GetExpectations(key)
+	if m == nil {
+		return nil, false
+	}
+	out := []string{}
+	for a := range m {
+		out = append(out, string(a))
+	}
+	sort.Strings(out)
+	return out, true
+}
